@@ -453,6 +453,31 @@ theorem comparison_trichotomy (a : Angle) (b : Operand) :
   · rintro ⟨ha, hb⟩; exact lt_asymm (h1.mp ha) (h3.mp hb)
   · rw [h5, he, sub_self, abs_zero]; exact ht
 
+/-- On valid Angles subtraction is exactly `Angle(a - b)` (the detour `a + (-b)` through `Angle(-b)`
+    loses nothing), plain, in-place and reflected. -/
+theorem sub_exact (a b : Angle) (hb : |b.deg| < 360) :
+    angle_sub a (.ang b) = mk (a.deg - b.deg) ∧ angle_isub a (.ang b) = mk (a.deg - b.deg) := by
+  have hneg : (angle_neg b).deg = -b.deg := reduce_deg_of_lt (by rw [abs_neg]; exact hb)
+  have : angle_sub a (.ang b) = mk (a.deg - b.deg) := by
+    show mk (a.deg + (angle_neg b).deg) = _
+    rw [hneg, sub_eq_add_neg]
+  exact ⟨this, this⟩
+
+/-- The remainder `%` keeps: for a positive modulus `b` the magnitude `|a| mod b` lies in [0, b), so the
+    exact result `sgn(a) * (|a| mod b)` has the sign of `a` and magnitude below `b`. -/
+theorem mod_remainder_range (x y : ℚ) (hy : 0 < y) :
+    0 ≤ |x| - y * ⌊|x| / y⌋ ∧ |x| - y * ⌊|x| / y⌋ < y ∧
+    |(if 0 ≤ x then (1 : ℚ) else -1) * (|x| - y * ⌊|x| / y⌋)| < y := by
+  have h := pmod_pos (x := |x|) hy
+  unfold pmod at h
+  rw [rfloor] at h
+  refine ⟨h.1, h.2.1, ?_⟩
+  split_ifs
+  · rw [one_mul, abs_of_nonneg h.1]; exact h.2.1
+  · rw [neg_one_mul, abs_neg, abs_of_nonneg h.1]; exact h.2.1
+
+example : ∃ r : Angle, angle_mod ⟨-350, TOL⟩ (.int 60) = .ok r ∧ r.deg = -50 := ⟨_, rfl, by decide +kernel⟩
+
 /-! ### Radians: input and view (over ℝ, `Pymeeus.GenR`) -/
 
 /-- The reduction theorem holds verbatim over the reals (the radians input needs it). -/
